@@ -1,5 +1,6 @@
 import CvProps.RealInst
 import CvProps.C17Lemmas
+import CvProps.C18
 /-!
 # C17 — extended-Lagrangian coordinates follow the documented integrator
 
@@ -203,6 +204,34 @@ theorem params (kB T tol tau : ℝ) (hkb : kB ≠ 0) (hT : T ≠ 0) (htol : tol 
   · rw [pow_two]
   · norm_num
     field_simp
+
+/-! ## periodic variables: the coupling force is the gradient of the coupling energy -/
+
+/-- for a periodic variable the coupling energy `½k·dist2(x_ext, x)` (minimum image) and the spring force the integrator uses
+    (`−½k·dist2_lgrad(x_ext, x)`) belong together: away from the cut locus the force is minus the derivative of the energy with
+    respect to the extended coordinate.  An energy from the minimum-image distance with a force from the plain difference (what a
+    variable-level `dist2_lgrad` that does not delegate to the component gives) violates this as soon as the two are on opposite
+    sides of the cut. -/
+theorem periodic_spring_is_gradient (k P xExt x : ℝ) (hP : 0 < P) (hcut : ∀ n : ℤ, (xExt - x) / P + 0.5 ≠ n) :
+    HasDerivAt (fun y => 0.5 * k * dist2S (some P) y x) (-((-0.5 * k) * dist2SGrad (some P) xExt x)) xExt := by
+  have h := (Cv.C18.grad_periodic P hP xExt x hcut).const_mul (0.5 * k)
+  refine h.congr_deriv ?_
+  ring
+
+/-- whatever the state, the forces and the random number, the extended coordinate of a periodic variable is inside the period
+    interval centred on `wrapAround` after every integration, and it is the unwrapped result moved by a whole number of periods
+    (so its minimum-image distance to anything is unchanged). -/
+theorem periodic_coordinate_wrapped (p : ExtParams ℝ) (P : ℝ) (hper : p.per = some P) (hP : 0 < P)
+    (s : ExtState ℝ) (x fb fa rnd : ℝ) :
+    p.wrapC - P / 2 ≤ (extIntegrate p s x fb fa rnd).xExt ∧ (extIntegrate p s x fb fa rnd).xExt < p.wrapC + P / 2 ∧
+    ∀ y, dist2S (some P) (extIntegrate p s x fb fa rnd).xExt y =
+      dist2S (some P) (reflectS p.reflLower p.reflUpper s.vExt (extX2 p s x fb rnd) (extV3 p s x fb rnd)).1 y := by
+  have h := (extIntegrate_reflect p s x fb fa rnd).1
+  rw [hper] at h
+  simp only at h
+  rw [h]
+  exact ⟨(Cv.C18.wrap_range P p.wrapC _ hP).1, (Cv.C18.wrap_range P p.wrapC _ hP).2,
+    fun y => Cv.C18.wrap_dist P p.wrapC _ y hP⟩
 
 /-! ## friction and noise (the [O] step), any time-step factor -/
 
